@@ -13,6 +13,7 @@
 import OidcModel.Generated.Jwks
 import OidcModel.Spec.C13
 import OidcModel.Proofs.C02
+import OidcModel.GoTac
 
 namespace C13
 open Jwks Hand
@@ -41,6 +42,8 @@ def cacheAns (skip : Bool) (cached : List JWK) (j : JWS) : CacheAns :=
 @[simp] theorem go_nil_opt {α : Type} : (Go.nil : Option α) = none := rfl
 @[simp] theorem go_notNil_some {α : Type} (x : α) : Go.notNil (some x) = true := rfl
 @[simp] theorem go_notNil_none {α : Type} : Go.notNil (none : Option α) = false := rfl
+@[simp] theorem go_isNil_some {α : Type} (x : α) : Go.isNil (some x) = false := rfl
+@[simp] theorem go_isNil_none {α : Type} : Go.isNil (none : Option α) = true := rfl
 
 theorem len_zero {α : Type} (l : List α) : (Go.len l == (0 : Int)) = l.isEmpty := by
   cases l with
@@ -50,6 +53,50 @@ theorem len_zero {α : Type} (l : List α) : (Go.len l == (0 : Int)) = l.isEmpty
     have : ((t.length + 1 : Nat) : Int) ≠ 0 := by omega
     simpa using this
 
+/-- `cacheAns` at an explicit key id / algorithm (what `verifySignatureCached` is called with) -/
+def cacheAnsAt (skip : Bool) (cached : List JWK) (j : JWS) (kid alg : String) : CacheAns :=
+  if cached.isEmpty then .miss else
+  match FindMatchingKey kid "sig" alg cached with
+  | .error _ => .miss
+  | .ok k =>
+    match jwsVerify j k with
+    | .ok p => .hit p
+    | .error _ => if exact skip k.KeyID kid then .reject else .miss
+
+theorem cacheAns_at (skip : Bool) (cached : List JWK) (j : JWS) :
+    cacheAns skip cached j = cacheAnsAt skip cached j (GetKeyIDAndAlg j).1 (GetKeyIDAndAlg j).2 := rfl
+
+/-- the Go pair `verifySignatureCached` returns for each of the three answers -/
+def cachedOut : CacheAns → GoPair
+  | .hit p => (some p, none)
+  | .reject => (none, some msgBadSig)
+  | .miss => (none, none)
+
+/-- characterisation of the regenerated `verifySignatureCached` (the only place where its shape matters) -/
+theorem verifySignatureCached_char (cfg : JwksSet) (cached : List JWK) (j : JWS) (kid alg : String) :
+    GenJwks.verifySignatureCached 0 cfg cached j kid alg = cachedOut (cacheAnsAt cfg.skipRemoteCheck cached j kid alg) := by
+  unfold cachedOut cacheAnsAt GenJwks.verifySignatureCached GenJwks.exactMatch Hand.jwksFind Hand.jwksVerify exact
+  simp only [len_zero]
+  cases cached with
+  | nil => simp
+  | cons a t =>
+    simp only [List.isEmpty_cons]
+    cases hf : FindMatchingKey kid Const.KeyUseSignature alg (a :: t) with
+    | error e => simp [Const.KeyUseSignature] at hf ⊢; simp [hf]
+    | ok k =>
+      simp [Const.KeyUseSignature] at hf ⊢
+      simp only [hf]
+      cases hv : jwsVerify j k with
+      | ok p => simp
+      | error e =>
+        simp only [go_notNil_none]
+        by_cases h1 : k.KeyID = "" <;> by_cases h2 : kid = "" <;> by_cases h3 : k.KeyID = kid <;>
+          cases hs : cfg.skipRemoteCheck <;> simp_all [msgBadSig]
+
+/-- characterisation of the regenerated `VerifySignature`: the head of the function is a case analysis on what the cache answers.
+    Shape-independent in `VerifySignature` itself: after the call of `verifySignatureCached` has been replaced by its
+    characterisation, every answer leaves a closed `if` / `match` over a literal Go pair, whatever the order and nesting of the
+    tests (`payload != nil` first, or `payload == nil` with the rest nested, …). -/
 theorem logic_cached (cfg : JwksSet) (hd : cfg.defaultAlg = "") (cached : List JWK) (remote : JWS → String → String → GoPair) (j : JWS) :
     GenJwks.logic.verifySignature cfg cached remote j =
       match cacheAns cfg.skipRemoteCheck cached j with
@@ -58,48 +105,14 @@ theorem logic_cached (cfg : JwksSet) (hd : cfg.defaultAlg = "") (cached : List J
       | .miss => remote j (GetKeyIDAndAlg j).1 (GetKeyIDAndAlg j).2 := by
   unfold GenJwks.logic
   simp only
-  unfold GenJwks.VerifySignature cacheAns
+  rw [cacheAns_at]
+  go_unfold GenJwks.VerifySignature
   rcases hg : GetKeyIDAndAlg j with ⟨kid, alg⟩
-  have halg : (if alg == "" then cfg.defaultAlg else alg) = alg := by
-    by_cases h : alg = "" <;> simp [h, hd]
-  simp only []
-  have key : GenJwks.verifySignatureCached 0 cfg cached j kid alg =
-      (match (if cached.isEmpty then CacheAns.miss else
-        match FindMatchingKey kid "sig" alg cached with
-        | .error _ => CacheAns.miss
-        | .ok k => match jwsVerify j k with
-          | .ok p => CacheAns.hit p
-          | .error _ => if exact cfg.skipRemoteCheck k.KeyID kid then CacheAns.reject else CacheAns.miss) with
-       | .hit p => (some p, none)
-       | .reject => (none, some msgBadSig)
-       | .miss => (none, none)) := by
-    unfold GenJwks.verifySignatureCached GenJwks.exactMatch Hand.jwksFind Hand.jwksVerify exact
-    simp only [len_zero]
-    cases cached with
-    | nil => simp
-    | cons a t =>
-      simp only [List.isEmpty_cons]
-      cases hf : FindMatchingKey kid Const.KeyUseSignature alg (a :: t) with
-      | error e => simp [Const.KeyUseSignature] at hf ⊢; simp [hf]
-      | ok k =>
-        simp [Const.KeyUseSignature] at hf ⊢
-        simp only [hf]
-        cases hv : jwsVerify j k with
-        | ok p => simp
-        | error e =>
-          simp only [go_notNil_none]
-          by_cases h1 : k.KeyID = "" <;> by_cases h2 : kid = "" <;> by_cases h3 : k.KeyID = kid <;>
-            cases hs : cfg.skipRemoteCheck <;> simp_all [msgBadSig]
-  have hd' : (if (alg == "") = true then (cfg.defaultAlg) else alg) = alg := halg
+  simp only [verifySignatureCached_char, hd]
   by_cases ha : alg = ""
   · subst ha
-    simp only [beq_self_eq_true, if_true, hd, key]
-    generalize (if cached.isEmpty = true then CacheAns.miss else _) = ans
-    cases ans <;> simp [msgBadSig]
-  · have : (alg == "") = false := by simpa using ha
-    simp only [this, key]
-    generalize (if cached.isEmpty = true then CacheAns.miss else _) = ans
-    cases ans <;> simp [msgBadSig]
+    cases hans : cacheAnsAt cfg.skipRemoteCheck cached j kid "" <;> simp_all [cachedOut, msgBadSig]
+  · cases hans : cacheAnsAt cfg.skipRemoteCheck cached j kid alg <;> simp_all [cachedOut, msgBadSig]
 
 inductive RemoteAns
   | accept (p : Payload)
@@ -498,6 +511,47 @@ theorem inv_cancel {c : Cid} (hI : Inv cfg s m)
       · exact callerInv_congr (hI.callers c') (by simp [upd, hc]) (by simp [upd, hc]) rfl (Nat.le_refl _) (fun _ _ _ => rfl) (fun _ h => h)
 
 
+/-- the deadline of a call's context passes: for the regenerated facts (`spawnCtx = detached`) this touches nothing but that call -/
+theorem inv_expire {c : Cid} (hI : Inv cfg s m)
+    (hx : exec fixedFacts GenJwks.logic cfg s (.expire c) = some (s', obs)) : Inv cfg s' (mrun m obs) := by
+  simp only [exec] at hx
+  split at hx
+  · simp at hx
+  · rename_i hcond
+    have hdet : fixedFacts.spawnCtx.keepsDeadline = false := by decide
+    simp only [hdet, Bool.false_eq_true, if_false, Option.some.injEq, Prod.mk.injEq] at hx
+    obtain ⟨rfl, rfl⟩ := hx
+    simp only [mrun_cons, mrun_nil, mstep]
+    refine { noViol := hI.noViol, noCrash := hI.noCrash, skipEq := hI.skipEq, served := hI.served, nf := hI.nf, begun := hI.begun, res := hI.res,
+             resKind := hI.resKind, fresh := hI.fresh, upc := hI.upc, sig := hI.sig, ann := hI.ann, infl := hI.infl, others := hI.others,
+             cache := hI.cache, cacheSafe := hI.cacheSafe, owner := ?_, ownerUniq := hI.ownerUniq, callers := ?_ }
+    · intro f hf
+      have ho := hI.owner f hf
+      by_cases hc : (s.fetches f).owner = c
+      · simpa [upd, hc] using (hc ▸ ho)
+      · simpa [upd, hc] using ho
+    · intro c'
+      by_cases hc : c' = c
+      · subst hc
+        have h := hI.callers c'
+        unfold CallerInv at h ⊢
+        obtain ⟨h1, h2, h3, h4⟩ := h
+        simp only [upd_same]
+        refine ⟨h1, h2, ?_, ?_⟩
+        · intro hne
+          obtain ⟨a, _, c3⟩ := h3 hne
+          exact ⟨a, by simp, c3⟩
+        · cases hpc : (s.callers c').pc with
+          | idle => trivial
+          | atCache => simpa [hpc] using h4
+          | atLock seen => simpa [hpc] using h4
+          | atSelect g seen => simpa [hpc] using h4
+          | done o =>
+            simp only [hpc] at h4 ⊢
+            cases o <;> simp_all [DoneOK]
+      · exact callerInv_congr (hI.callers c') (by simp [upd, hc]) (by simp [upd, hc]) rfl (Nat.le_refl _) (fun _ _ _ => rfl) (fun _ h => h)
+
+
 theorem mark_ne_badSig : ((none, some msgBadSig) == ((none, some needRemoteMark) : GoPair)) = false := by decide
 
 include hd in
@@ -750,10 +804,11 @@ theorem inv_enter_core {c : Cid} (hI : Inv cfg s m) (hask : (m.callers c).asked 
   split at hx
   · simp at hx
   · have hdet : (fixedFacts.spawnCtx == CtxKind.caller) = false := by decide
+    have hdet2 : (fixedFacts.spawnCtx == CtxKind.deadlineOnly) = false := by decide
     have hg : fixedFacts.guardNil = true := rfl
     have hsn : fixedFacts.storeNew = true := rfl
     have hsp : fixedFacts.spawnPoint = true := rfl
-    simp only [hdet, hg, hsn, hsp, Bool.not_true, Bool.false_or, Bool.false_and, Bool.and_false, Bool.and_true, Bool.false_eq_true, if_false, if_true,
+    simp only [hdet, hdet2, Bool.or_false, hg, hsn, hsp, Bool.not_true, Bool.false_or, Bool.false_and, Bool.and_false, Bool.and_true, Bool.false_eq_true, if_false, if_true,
       List.append_nil] at hx
     cases hinf : s.inflight with
     | some g =>
@@ -1176,6 +1231,7 @@ theorem inv_step {cfg : JwksSet} (hd : cfg.defaultAlg = "") {s s' : State} {m : 
   | enter c => exact inv_enter hI hx
   | wake c v => exact inv_wake hd hI hx
   | cancel c => exact inv_cancel hI hx
+  | expire c => exact inv_expire hI hx
   | rotate ks => exact inv_rotate hI hx
   | respond f a => exact inv_respond hI hx
   | upd f => exact inv_upd hI hx
@@ -1212,7 +1268,8 @@ theorem reach_inv (cfg : JwksSet) (hd : cfg.defaultAlg = "") {tr : List Act} {s 
   exact inv_run hd tr {} s _ obs (inv_init cfg) h
 
 /-- **C13 (main theorem).** For EVERY schedule — any number of concurrent calls, any interleaving of cache reads, critical
-    sections, downloads, faults (5xx, bad JSON, dropped unknown key types), rotations and cancellations, any `select` choice —
+    sections, downloads, faults (5xx, bad JSON, dropped unknown key types), rotations, cancellations and passing deadlines
+    (`Act.cancel`, `Act.expire` of any call at any position), any `select` choice —
     the observations the model produces satisfy the monitor. -/
 theorem jwks_model_satisfies_monitor (cfg : JwksSet) (hd : cfg.defaultAlg = "") (tr : List Act) (s : State) (obs : List Obs)
     (h : run GenJwks.facts GenJwks.logic cfg {} tr = some (s, obs)) :
@@ -1300,8 +1357,10 @@ theorem jwks_unknown_kid_rejected (c : Nat) (o : Outcome) (hc : (s.callers c).pc
     · exact n2 hk
     · exact hkid hk
 
-/-- cancel isolation: no download is ever aborted by a call's cancellation, a call fails with its own context error only if
-    its own context is cancelled, and never with another call's cancellation -/
+/-- cancel isolation, for both kinds of ending of a context (`Act.cancel c`: `cancel()` is called; `Act.expire c`: its deadline passes;
+    `live = false` after either): no download is ever aborted by the end of a call's context, a call fails with its own context error
+    only if its own context has ended, and never with the end of another call's context (`fetchErr .cancelled` = the download it waited
+    for ended with `context canceled` or `context deadline exceeded`). Position-explicit form: `jwks_own_context_isolation` (C13Trace). -/
 theorem jwks_cancel_isolation :
     (∀ f : Nat, (s.fetches f).res ≠ some (.fail .cancelled)) ∧
     (∀ c : Nat, (s.callers c).pc = .done .ctxErr → (s.callers c).live = false) ∧
